@@ -54,13 +54,13 @@ class VersionConverter(object):
         return tree
 
     def _parse_json(self):
-        with open(self.filename) as file:
+        with open(self.filename, encoding="utf-8") as file:
             parsed_doc = json.load(file)
 
         return self._parse_dict_document(parsed_doc)
 
     def _parse_yaml(self):
-        with open(self.filename) as file:
+        with open(self.filename, encoding="utf-8") as file:
             parsed_doc = yaml.safe_load(file)
 
         return self._parse_dict_document(parsed_doc)
@@ -524,6 +524,6 @@ class VersionConverter(object):
             filename = "%s.xml" % filename
 
         if data and "<odML " in data:
-            with open(filename, "w") as file:
+            with open(filename, "w", encoding="utf-8") as file:
                 file.write("%s\n" % XML_HEADER)
                 file.write(data)
